@@ -82,7 +82,10 @@ VALID = dict(
     effects=('<{p}effect id="{id}"><{p}profile_COMMON><{p}technique sid="common"><{p}phong><{p}diffuse><{p}color>0.5 0.25 0.5 1</{p}color>'
              '</{p}diffuse></{p}phong></{p}technique></{p}profile_COMMON></{p}effect>'),
     materials='<{p}material id="{id}" name="{id}"><{p}instance_effect url="#fxbase"/></{p}material>',
-    animations='<{p}animation id="{id}"/>',
+    # an animation keeps the sources it declares in a dict of its own (`sourceById`)
+    animations=('<{p}animation id="{id}"><{p}source id="{id}-t"><{p}float_array id="{id}-ta" count="2">0 1</{p}float_array><{p}technique_common>'
+                '<{p}accessor source="#{id}-ta" count="2" stride="1"><{p}param name="TIME" type="float"/></{p}accessor></{p}technique_common>'
+                '</{p}source></{p}animation>'),
     geometries=('<{p}geometry id="{id}"><{p}mesh><{p}source id="{id}-p"><{p}float_array id="{id}-pa" count="9">0 0 0 1 0 0 0 1 0</{p}float_array>'
                 '<{p}technique_common><{p}accessor source="#{id}-pa" count="3" stride="3"><{p}param name="X" type="float"/>'
                 '<{p}param name="Y" type="float"/><{p}param name="Z" type="float"/></{p}accessor></{p}technique_common></{p}source>'
@@ -843,7 +846,68 @@ def run_inter(args, monitor=None):
     return dict(obs=obs, final=final, monitor=monitor.hits[h0:], shared=shared_objects(slots))
 
 
-FUNCS = dict(solo=run_solo, inter=run_inter)   # solo: the forked child only coordinates and stays pristine
+def run_poke(args):
+    """turn a shared mutable object into a failing history: run the schedule, edit the object through the document that comes first,
+    and look at the OTHER document's public model (vlib.snap) and written bytes before and after the edit"""
+    case, want = args
+    from vlib import snap as vsnap
+    import numpy
+    slots = [Slot() for _ in range(case['docs'])]
+    for i, op in case['sched']:
+        do_op(slots[i], op)
+    graphs = [(n, reach(s.doc)) for n, s in enumerate(slots) if s.doc is not None]
+    for x in range(len(graphs)):
+        for y in range(x + 1, len(graphs)):
+            for i in set(graphs[x][1]) & set(graphs[y][1]):
+                o, pa = graphs[x][1][i]
+                if re.sub(r'\d+', '', pa) != want:
+                    continue
+                other = slots[graphs[y][0]].doc
+
+                def look():
+                    try:
+                        pub = json.dumps(vsnap.snapshot(other), sort_keys=True, default=repr)
+                    except Exception as ex:
+                        pub = 'raised ' + type(ex).__name__
+                    try:
+                        buf = io.BytesIO()
+                        other.write(buf)
+                        wr = blank_times(buf.getvalue())
+                    except Exception as ex:
+                        wr = ('raised ' + type(ex).__name__).encode()
+                    return pub, wr
+                before = look()
+                if isinstance(o, list):
+                    if o:
+                        o.append(o[0])
+                        how = '.append(<its first element>)'
+                    elif pa.endswith('contributors'):
+                        from collada import asset
+                        o.append(asset.Contributor(author='verif'))
+                        how = ".append(Contributor(author='verif'))"
+                    else:
+                        return None
+                elif isinstance(o, dict):
+                    if not o:
+                        return None
+                    o['verif-added'] = next(iter(o.values()))
+                    how = "['verif-added'] = <one of its values>"
+                elif isinstance(o, numpy.ndarray) and o.size and o.dtype.kind in 'fiu':
+                    o.flat[0] += 1
+                    how = '.flat[0] += 1'
+                else:
+                    return None
+                after = look()
+                changed = [n for n, a, b in zip(('public model', 'written bytes'), before, after) if a != b]
+                if not changed:
+                    return None
+                k = next((k for k in range(min(len(before[0]), len(after[0]))) if before[0][k] != after[0][k]), 0)
+                return dict(first=graphs[x][0], other=graphs[y][0], path=pa, how=how, changed=changed,
+                            before=before[0][max(0, k - 60):k + 80], after=after[0][max(0, k - 60):k + 80])
+    return None
+
+
+FUNCS = dict(solo=run_solo, inter=run_inter, poke=run_poke)   # solo: the forked child only coordinates and stays pristine
 
 
 class Zygote(object):
@@ -950,6 +1014,15 @@ def compare(case, inter, solos):
                 if best is None or step < best['step']:
                     best = cand
                 break
+        else:
+            # nothing the document showed at its own operations differs: what it holds when the whole schedule is over
+            # (other documents went on after its last operation) is what it held after that operation alone
+            if mine and len(mine) == len(solo) and 'final' in inter and inter['final'][i]['snap'] != solo[-1]['snap']:
+                step = len(case['sched'])
+                if best is None:
+                    a, b = inter['final'][i], solo[-1]
+                    best = dict(doc=i, k=len(mine) - 1, step=step, op='afterwards', field='snap', inter={f: a.get(f) for f in KEYS},
+                                solo={f: b.get(f) for f in KEYS}, full=(a.get('full'), b.get('full')))
     return best
 
 
@@ -1381,7 +1454,18 @@ def _run(ctx, z):
             sig = 'corr:share:%s' % pa
             if sig not in reported and sum(1 for r in reported if r.startswith('corr:share:')) < 2:
                 reported.add(sig)
-                small = shrink(z, c, lambda cc: any(h[2] == pa for h in z.call('inter', [(cc, False)])[0]['shared']), budget=40)
+                if z.call('poke', [(c, pa)])[0]:
+                    small = shrink(z, c, lambda cc: bool(z.call('poke', [(cc, pa)])[0]), budget=40)
+                else:
+                    small = shrink(z, c, lambda cc: any(h[2] == pa for h in z.call('inter', [(cc, False)])[0]['shared']), budget=40)
+                poke = z.call('poke', [(small, pa)])[0]
+                if poke:
+                    ctx.violation(sig, 'after the schedule %s, document %d and document %d hold the same mutable %s (%s of one, %s of the other): '
+                                  'the edit `doc%d.%s%s` changed the %s of document %d — model …%s… became …%s…'
+                                  % (brief(small), poke['first'], poke['other'], tn, pa, pb, poke['first'], poke['path'].split('.', 1)[-1], poke['how'],
+                                     ' and the '.join(poke['changed']), poke['other'], poke['before'], poke['after']),
+                                  dict(kind='share', case=small, path=pa, poke=True))
+                    continue
                 ctx.violation(sig, 'a mutable %s is reachable from two documents (%s of one, %s of the other): the operations do not have the '
                               'frame type DocState -> DocState x Out assumed by Pyc.Props.C20.schedule_projection; no interleaved-vs-solo '
                               'difference was needed to see it. Schedule: %s' % (tn, pa, pb, brief(small)),
@@ -1694,6 +1778,12 @@ def replay(ctx, rep):
             hit = [h for h in inter['shared'] if h[2] == rep['path']]
             if hit:
                 print('  shared mutable object: %s' % (hit[0],))
+            if rep.get('poke'):
+                poke = z.call('poke', [(rep['case'], rep['path'])])[0]
+                if poke:
+                    print('  edit through document %d (%s %s) changed the %s of document %d: …%s… -> …%s…'
+                          % (poke['first'], poke['path'], poke['how'], ' and the '.join(poke['changed']), poke['other'], poke['before'], poke['after']))
+                return bool(poke)
             return bool(hit)
         if kind == 'model':
             inter = z.call('inter', [(rep['case'], False)])[0]
